@@ -232,7 +232,7 @@ def rule_wr(ctx, F):
     n = 0
     seen = {}
     for p, b in F.bodies.items():
-        if not (p.startswith(IM + "write::WriteNode") or p.startswith("<" + IM + "write::WriteNode")):
+        if not (p.startswith((IM + "write::WriteNode", "<" + IM + "write::WriteNode", IM + "write::WriteZone", "<" + IM + "write::WriteZone"))):
             continue
         for bb, t in b.calls():
             for i in _version_args(b, t):
@@ -241,8 +241,12 @@ def rule_wr(ctx, F):
                 callee = (t["fn"] or "?").split("::")[-1]
                 k = (p, callee)
                 seen[k] = seen.get(k, 0) + 1
-                is_read = callee in ("get", "is_empty", "with_special", "is_nx_domain", "get_soa", "iter", "with")
-                allowed = ("self.zone.new_version", "param") + (("last_published",) if is_read else ())
+                is_read = callee in ("get", "is_empty", "with_special", "is_nx_domain", "get_soa", "iter", "with", "query", "walk", "new") or \
+                    re.search(r"ReadZone|::read::", t["fn"] or "") is not None
+                # housekeeping of the version list itself is not a change of zone content
+                if re.search(r"ZoneVersions::|Version::|clean_versions|update_current", t["fn"] or ""):
+                    continue
+                allowed = ("self.zone.new_version", "self.new_version", "param") + (("last_published",) if is_read else ())
                 ctx.ob(R, b, "version passed to %s#%d" % (callee, seen[k]), prov in allowed,
                        "a WriteNode operation uses version provenance %s instead of the writer's new_version: it "
                        "would modify (or read) a version visible to readers" % prov, b.where(bb))
